@@ -327,6 +327,36 @@ theorem type_table_binds_have_type :
       | none => true) = true := by
   decide +kernel
 
+/-- data type and preload attributes the XLSForm reference documents for the core question types
+    (pinned here independently of the source) -/
+def documentedTypes : List (String × List (String × String)) :=
+  let pre (k p t : String) := [("jr:preload", k), ("jr:preloadParams", p), ("type", t)]
+  [("integer", [("type", "int")]), ("int", [("type", "int")]), ("decimal", [("type", "decimal")]),
+   ("text", [("type", "string")]), ("string", [("type", "string")]), ("date", [("type", "date")]),
+   ("time", [("type", "time")]), ("dateTime", [("type", "dateTime")]), ("datetime", [("type", "dateTime")]),
+   ("geopoint", [("type", "geopoint")]), ("geotrace", [("type", "geotrace")]), ("geoshape", [("type", "geoshape")]),
+   ("photo", [("type", "binary")]), ("image", [("type", "binary")]), ("audio", [("type", "binary")]),
+   ("video", [("type", "binary")]), ("file", [("type", "binary")]), ("barcode", [("type", "barcode")]),
+   ("note", [("readonly", "true()"), ("type", "string")]), ("calculate", [("type", "string")]),
+   ("hidden", [("type", "string")]), ("acknowledge", [("type", "string")]), ("select one", [("type", "string")]),
+   ("select all that apply", [("type", "string")]), ("rank", [("type", "odk:rank")]), ("range", [("type", "int")]),
+   ("start", pre "timestamp" "start" "dateTime"), ("end", pre "timestamp" "end" "dateTime"),
+   ("today", pre "date" "today" "date"), ("deviceid", pre "property" "deviceid" "string"),
+   ("username", pre "property" "username" "string"), ("phonenumber", pre "property" "phonenumber" "string"),
+   ("email", pre "property" "email" "string"), ("simserial", pre "property" "simserial" "string"),
+   ("subscriberid", pre "property" "subscriberid" "string"), ("audit", [("type", "binary")])]
+
+/-- the regenerated type table prescribes exactly the documented bind attributes for every
+    documented type (as a finite map: same keys, same values) -/
+theorem documented_types_prescribed :
+    documentedTypes.all (fun td =>
+      match typeBind td.1.toList with
+      | some tt =>
+        tt.length == td.2.length &&
+        td.2.all (fun kv => lookup kv.1.toList tt == some kv.2.toList)
+      | none => false) = true := by
+  decide +kernel
+
 /-- `BINDING_CONVERSIONS` is the yes/no table read as XPath booleans: each key is a `yes_no`
     spelling and maps to `true()` / `false()` accordingly -/
 theorem conversions_agree_with_yes_no :
